@@ -10,7 +10,9 @@ use rand::SeedableRng;
 use rand_pcg::Pcg64Mcg;
 use serde_json::{json, Value};
 
-pub const VERIF_DIR: &str = "/verif";
+pub fn verif_dir() -> String {
+    std::env::var("PV_DIR").unwrap_or_else(|_| "/verif".to_string())
+}
 
 #[derive(Clone, Copy, PartialEq, Eq, Debug)]
 pub enum Tier {
@@ -228,7 +230,7 @@ pub struct KnownFinding {
 }
 
 pub fn load_known_findings(prop: &str) -> Vec<KnownFinding> {
-    let p = format!("{}/known_findings.json", VERIF_DIR);
+    let p = format!("{}/known_findings.json", verif_dir());
     let txt = match std::fs::read_to_string(&p) {
         Ok(t) => t,
         Err(_) => return vec![],
@@ -338,10 +340,10 @@ impl Ctx {
             }
         }
 
-        let _ = std::fs::create_dir_all(format!("{}/replays", VERIF_DIR));
+        let _ = std::fs::create_dir_all(format!("{}/replays", verif_dir()));
         let mut replay_paths = vec![];
         for (n, v) in unknown.iter().enumerate().take(8) {
-            let path = format!("{}/replays/{}-{}-{}.json", VERIF_DIR, self.prop, self.seed, n);
+            let path = format!("{}/replays/{}-{}-{}.json", verif_dir(), self.prop, self.seed, n);
             let body = json!({
                 "property": self.prop, "kind": v.kind, "signature": v.signature,
                 "case": v.case, "detail": v.detail, "seed": self.seed, "tier": self.tier.name(),
@@ -382,8 +384,8 @@ impl Ctx {
             "violations_matching_known_findings": (total_viol - total_unknown) as i64,
         });
         if self.args.replay.is_none() {
-            let _ = std::fs::create_dir_all(format!("{}/evidence", VERIF_DIR));
-            let path = format!("{}/evidence/{}.json", VERIF_DIR, self.prop);
+            let _ = std::fs::create_dir_all(format!("{}/evidence", verif_dir()));
+            let path = format!("{}/evidence/{}.json", verif_dir(), self.prop);
             if let Err(e) = std::fs::write(&path, serde_json::to_string_pretty(&ev).unwrap()) {
                 println!("INCONCLUSIVE property={} reason=cannot write evidence: {}", self.prop, e);
                 return 2;
